@@ -658,11 +658,10 @@ class Recfile(object):
             elif num > self.nrows:
                 num = self.nrows
         else:
-            # single element
+            # single element; rows past the end are left for the
+            # range check to reject
             if num < 0:
                 num = self.nrows + num
-            elif num > (self.nrows - 1):
-                num = self.nrows - 1
 
         return num
 
